@@ -1,0 +1,70 @@
+//go:build verif
+
+package local
+
+// Contracts for the local synchronization endpoint (properties C41, C42, C02).
+// Comment-only file: compiled only under the "verif" build tag, contains no
+// code. The "//@" lines are read by /verif/govc.
+
+// The endpoint's fields are written only by this package's functions.
+//@ private endpoint
+
+// A stager does not touch the endpoint (it has no reference to it).
+//@ iface stager.Initialize
+//@   params self
+//@   pure
+//@ iface stager.Contains
+//@   params self, path, digest
+//@   pure
+//@ iface stager.Finalize
+//@   params self
+//@   pure
+
+// Scanning: a successful Scan establishes the entry-count limit and arms one
+// Stage and one Transition call; a failed Scan arms nothing.
+//@ func (*endpoint).Scan
+//@   requires e != nil
+//@   ensures[limit] result1 == nil ==> e.lastScanEntryCount <= e.maximumEntryCount
+//@   ensures[arms] result1 == nil ==> e.scannedSinceLastStageCall && e.scannedSinceLastTransitionCall
+//@   ensures[failed] result1 != nil ==> e.scannedSinceLastStageCall == old(e.scannedSinceLastStageCall) && e.scannedSinceLastTransitionCall == old(e.scannedSinceLastTransitionCall)
+
+// Staging: refused without a preceding scan (no stager call is made), consumes
+// the scan, never requests more than the entry-count limit allows, and returns
+// an in-order subset of the requested paths.
+//@ func (*endpoint).Stage
+//@   requires e != nil && base(paths) != 0
+//@   ensures[noscan] !e.readOnly && len(paths) == len(digests) && len(paths) > 0 && !old(e.scannedSinceLastStageCall) ==> result3 != nil
+//@   at call stager.Initialize assert[noscan] old(e.scannedSinceLastStageCall) && !e.readOnly
+//@   at call stager.Contains assert[noscan] old(e.scannedSinceLastStageCall) && !e.readOnly
+//@   ensures[consumed] result3 == nil && len(paths) > 0 ==> !e.scannedSinceLastStageCall
+//@   ensures[limit] result3 == nil && len(paths) > 0 && e.maximumEntryCount != 0 ==> old(e.lastScanEntryCount) + len(paths) <= e.maximumEntryCount
+//@   ensures[subset] result3 == nil ==> len(result0) <= len(paths)
+//@   ensures[subset] result3 == nil ==> forall k in 0..len(result0) :: exists j in k..len(paths) :: result0[k] == old(paths[j])
+//@   loop 1 modifies paths[*]
+//@   loop 1 invariant[subset] rangeindex < len(paths) && len(filteredPaths) <= rangeindex + 1 && base(filteredPaths) == base(paths) && off(filteredPaths) == off(paths) && cap(filteredPaths) == cap(paths)
+//@   loop 1 invariant opener != nil && (base(opener.openParentNames) == 0 || fresh(opener.openParentNames)) && (base(opener.openParentDirectories) == 0 || fresh(opener.openParentDirectories))
+//@   loop 1 invariant[subset] forall j in rangeindex+1..len(paths) :: paths[j] == old(paths[j])
+//@   loop 1 invariant[subset] forall k in 0..len(filteredPaths) :: exists j in k..rangeindex+1 :: filteredPaths[k] == old(paths[j])
+//@   loop 2 invariant opener != nil && (base(opener.openParentNames) == 0 || fresh(opener.openParentNames)) && (base(opener.openParentDirectories) == 0 || fresh(opener.openParentDirectories))
+//@   loop 2 invariant[subset] len(filteredPaths) <= len(paths) && base(filteredPaths) == base(paths)
+//@   loop 2 invariant[subset] forall k in 0..len(filteredPaths) :: exists j in k..len(paths) :: filteredPaths[k] == old(paths[j])
+
+//@ iface stager.Sink
+//@   params self, path
+//@   pure
+//@ iface stager.Provide
+//@   params self, path, digest
+//@   pure
+
+// Transition: refused without a preceding scan (core.Transition is not
+// called), consumes the scan, and is refused when the entry count that results
+// from the requested changes - the last scan's count minus every removed
+// sub-tree plus every created one - exceeds the limit.
+//@ spec rec rcount(ts, k, c0) int = k <= 0 ? c0 : (rcount(ts, k - 1, c0) - core.ecount(ts[k - 1].Old) + core.ecount(ts[k - 1].New)) % 18446744073709551616
+//@ func (*endpoint).Transition
+//@   requires e != nil && (forall k in 0..len(transitions) :: transitions[k] != nil)
+//@   ensures[noscan] !e.readOnly && !old(e.scannedSinceLastTransitionCall) ==> result3 != nil
+//@   at call core.Transition assert[noscan] old(e.scannedSinceLastTransitionCall) && !e.readOnly
+//@   at call core.Transition assert[limit] e.maximumEntryCount != 0 ==> resultingEntryCount == rcount(transitions, len(transitions), old(e.lastScanEntryCount)) && resultingEntryCount <= e.maximumEntryCount
+//@   ensures[consumed] !e.readOnly && old(e.scannedSinceLastTransitionCall) ==> !e.scannedSinceLastTransitionCall || result3 != nil
+//@   loop 1 invariant[limit] rangeindex < len(transitions) && resultingEntryCount == rcount(transitions, rangeindex + 1, old(e.lastScanEntryCount))
